@@ -27,7 +27,8 @@ const rule = "schedules = random walks over the model's enabled steps (enqueue /
 	"natural, delayed-park, late-roll-over and mixed styles) + ALL schedules of a fixed length over a small step alphabet " +
 	"(quota 1 and 2, <= 3-4 requests; length 6 quick / 9 thorough) + a malformed stream, replayed on the real queue, + corpus witnesses; " +
 	"plugin level (real StrategyBasedQueuePlugin): bursts of k concurrent first requests per fresh remedy key behind a start barrier " +
-	"(queues created per key, passed, waiting, refused) and sequential multi-key scenarios; " +
+	"(queues created per key, passed, waiting, refused), sequential multi-key scenarios, and reload scenarios (same remedy name with a " +
+	"raised/lowered quota or another window size after its queue was used, same-named remedies with different strategies interleaved; one queue per full QueueKey); " +
 	"non-trivial = at least one request was queued and at least one roll-over ran; distinct by (ops, answers)"
 
 type rq struct {
